@@ -93,7 +93,7 @@ def oracle(cfg, xs, shape=None, full_walk=False, stats=None):
       sig = dict(base, clause="offgrid")
       if m["neg_sat"] is not None and y64[i] == m["neg_sat"] * u and m["neg_sat"] != int(m["neg_sat"]):
         sig["kind"] = "leaky_saturation_fractional_code"
-      elif dist[i] <= 2.0:
+      elif dist[i] <= 2.0 and not (m["sign"] and kr[i] == 0):
         sig["kind"] = "ste_ulp_noise"
       else:
         sig["kind"] = "wrong_value"
